@@ -3153,6 +3153,17 @@ pub(crate) fn parse_toplevel_items_from_span(
 ) -> (Vec<ToplevelItem>, Vec<ParseError>) {
     let mut diagnostics = vec![];
 
+    // The span comes from the client (e.g. a JSON session request),
+    // so keep it inside `src` and on character boundaries.
+    let mut end_offset = end_offset.min(src.len());
+    while !src.is_char_boundary(end_offset) {
+        end_offset -= 1;
+    }
+    let mut offset = offset.min(end_offset);
+    while !src.is_char_boundary(offset) {
+        offset -= 1;
+    }
+
     let (mut tokens, lex_errors) = lex_between(vfs_path, src, offset, end_offset);
     for error in lex_errors {
         diagnostics.push(error);
